@@ -59,7 +59,10 @@ RULE = (
     "legal values are part of every generator (asymmetric DistanceMatrix cells written one direction at a time, "
     "tree / taxon / sequence / row names with an internal blank or punctuation incl. reassign_names, numeric-"
     "looking and look-alike labels, non-string table index values, mixed-type columns, a parameter constant on "
-    "some edges and bounded on the others); distinct = "
+    "some edges and bounded on the others; rows with leading / trailing gap runs and all-gap rows, then "
+    "Alignment.with_modified_termini(), Aligned.with_termini_unknown(), IndelMap(termini_unknown=True) on "
+    "terminal-gap / all-gap / no-terminal-gap layouts, with the '?' rendering and the termini_unknown flag observed); "
+    "distinct = "
     "(type, last <=4 history op kinds, channel)."
 )
 LEVEL_TEXT = (
@@ -559,7 +562,7 @@ def gen_seq(res, rng, impl, depth):
         if mt in NUCLEIC:
             ops += ["rc", "rc", "to_moltype"]
         if "-" in str(s):
-            ops += ["degap"]
+            ops += ["degap", "with_termini_unknown"]
         if nfeat and impl == "old":
             ops += ["slice-by-feature"]
         op = rng.choice(ops)
@@ -620,6 +623,8 @@ def gen_seq(res, rng, impl, depth):
 
             ok, new = try_op(res, "seq", op, _ren)
             d["name"] = s.name
+        elif op == "with_termini_unknown":
+            ok, new = try_op(res, "seq", op, lambda: s.with_termini_unknown())
         elif op == "degap":
             ok, new = try_op(res, "seq", op, lambda: s.degap())
         elif op == "slice-by-feature":
@@ -901,6 +906,8 @@ def aln_components(cls_name, nucleic):
             ("row-coordinates", lambda a: {n: coords_obs(a.named_seqs[n].data) for n in a.names}),
             ("row-offsets", lambda a: {n: a.named_seqs[n].data.annotation_offset for n in a.names}),
             ("row-maps", lambda a: {n: map_obs(a.named_seqs[n].map) for n in a.names}),
+            ("row-termini-unknown", lambda a: {n: bool(a.named_seqs[n].map.termini_unknown) for n in a.names}),
+            ("gapped-rows", lambda a: {n: str(a.get_gapped_seq(n)) for n in a.names}),
             ("seq-coordinates", lambda a: {n: coords_obs(a.get_seq(n)) for n in a.names}),
             ("features", features_obs),
             ("seq-features", lambda a: features_obs(a, on_alignment=False)),
@@ -914,7 +921,7 @@ def aln_item(a):
     return Item(cn, a, aln_components(cn, mt_label(a) in NUCLEIC), mech="old.collections")
 
 
-def rand_aln_data(rng, mt, n, L):
+def rand_aln_data(rng, mt, n, L, allow_all_gap=False):
     names = rng.sample(["a", "b", "seq_c", "d1", "E", "sp 1", "x|y.1", "10"], n)
     gaps = rng.choice([0.0, 0.15, 0.35])
     data = {}
@@ -930,9 +937,19 @@ def rand_aln_data(rng, mt, n, L):
                     s[j] = "-"
                 i += run
             i += 1
-        if all(ch == "-" for ch in s):
+        r = rng.random()
+        if r < 0.35 and L >= 3:  # leading and / or trailing gap run (the state with_modified_termini() acts on)
+            k1 = rng.choice([0, 1, 2, L // 3])
+            k2 = rng.choice([0, 1, 2, L // 3])
+            s[:k1] = "-" * k1
+            if k2:
+                s[L - k2 :] = "-" * k2
+        if all(ch == "-" for ch in s) and not (allow_all_gap and rng.random() < 0.5):
             s[rng.randrange(L)] = SEQ_CHARS[mt][0]
         data[nm] = "".join(s)
+    if all(set(v) == {"-"} for v in data.values()):
+        nm = next(iter(data))
+        data[nm] = SEQ_CHARS[mt][0] + data[nm][1:]
     return data
 
 
@@ -942,7 +959,7 @@ def gen_aln(res, rng, array_align, depth):
     mt = rng.choice(["dna", "dna", "rna", "protein"])
     n = rng.randint(1, 4)
     L = rng.randint(2, 18)
-    data = rand_aln_data(rng, mt, n, L)
+    data = rand_aln_data(rng, mt, n, L, allow_all_gap=not array_align)
     kw = dict(moltype=mt, array_align=array_align)
     if rng.random() < 0.5:
         kw["info"] = {"note": "x", "n": 3}
@@ -975,7 +992,9 @@ def gen_aln(res, rng, array_align, depth):
     nfeat = 0
     for _ in range(depth):
         is_arr = type(a).__name__ == "ArrayAlignment"
-        ops = ["slice", "slice", "take_seqs", "take_positions", "omit_gap_pos", "rename_seqs", "info", "to_type", "deepcopy"]
+        ops = ["slice", "slice", "take_seqs", "take_positions", "omit_gap_pos", "rename_seqs", "info", "to_type", "deepcopy", "with_modified_termini", "with_modified_termini"]
+        if _ == 0 and getattr(rng, "slot", 1) % 3 == 0:
+            ops = ["with_modified_termini"]  # every run has alignments in the termini-unknown state
         if mt_label(a) in NUCLEIC:
             ops += ["rc", "rc", "to_moltype"]
         if is_arr:
@@ -1011,6 +1030,8 @@ def gen_aln(res, rng, array_align, depth):
             pos = sorted(rng.sample(range(La), rng.randint(1, La)))
             d["positions"] = pos
             ok, new = try_op(res, "aln", op, lambda: a.take_positions(pos))
+        elif op == "with_modified_termini":
+            ok, new = try_op(res, "aln", op, lambda: a.with_modified_termini())
         elif op == "omit_gap_pos":
             frac = rng.choice([None, 0.5])
             d["allowed_gap_frac"] = frac
@@ -1083,10 +1104,13 @@ def map_obs(m):
     spans = []
     for sp in m.spans:
         if sp.lost:
-            spans.append(["lost", int(sp.length)])
+            spans.append(["unknown" if getattr(sp, "terminal", False) else "lost", int(sp.length)])
         else:
             spans.append([int(sp.start), int(sp.end), bool(getattr(sp, "reverse", False))])
-    return {"spans": spans, "parent_length": int(m.parent_length), "length": len(m)}
+    out = {"spans": spans, "parent_length": int(m.parent_length), "length": len(m)}
+    if hasattr(m, "termini_unknown"):
+        out["termini_unknown"] = bool(m.termini_unknown)
+    return out
 
 
 def aligned_components(nucleic):
@@ -1095,6 +1119,7 @@ def aligned_components(nucleic):
         ("name", lambda r: r.name),
         ("length", lambda r: len(r)),
         ("map", lambda r: map_obs(r.map)),
+        ("termini_unknown", lambda r: bool(r.map.termini_unknown)),
         ("data-string", lambda r: str(r.data)),
         ("data-coordinates", lambda r: coords_obs(r.data)),
         ("data-offset", lambda r: r.data.annotation_offset),
@@ -1129,7 +1154,10 @@ def gen_aligned(res, rng, depth):
         L = len(r)
         if L == 0:
             break
-        if mt_label(a) in NUCLEIC and rng.random() < 0.5:
+        if _ == 0 and getattr(rng, "slot", 1) % 2 == 0 or rng.random() < 0.25:
+            ok, new = try_op(res, "aligned", "row-with_termini_unknown", lambda: r.with_termini_unknown())
+            op, d = "row-with_termini_unknown", {"op": "row-with_termini_unknown"}
+        elif mt_label(a) in NUCLEIC and rng.random() < 0.5:
             ok, new = try_op(res, "aligned", "row-rc", lambda: r.rc())
             op, d = "row-rc", {"op": "row-rc"}
         else:
@@ -2075,12 +2103,13 @@ def indelmap_components():
         s = "".join("ACGT"[i % 4] for i in range(n))
         out = []
         for sp in m.spans:
-            out.append("-" * int(sp.length) if sp.lost else s[sp.start : sp.end])
+            out.append(("?" if getattr(sp, "terminal", False) else "-") * int(sp.length) if sp.lost else s[sp.start : sp.end])
         return "".join(out)
 
     return [
         ("rendered", render),
         ("map", map_obs),
+        ("termini_unknown", lambda m: bool(m.termini_unknown)),
         ("gap_pos", lambda m: m.gap_pos),
         ("cum_gap_lengths", lambda m: m.cum_gap_lengths),
         ("coordinates", lambda m: m.get_coordinates()),
@@ -2100,15 +2129,35 @@ def gen_indelmap(res, rng, depth):
         run = rng.choice([1, 1, 2, 3, 6])
         g += (["-"] if rng.random() < 0.4 else ["A"]) * run
     g = "".join(g[:L])
+    layout = pick(rng, ["random", "terminal-gaps", "random", "all-gap", "no-terminal-gap", "leading-gap-only"])
+    if layout == "terminal-gaps":
+        g = "-" * rng.randint(1, 3) + g + "-" * rng.randint(1, 3)
+    elif layout == "all-gap":
+        g = "-" * len(g)
+    elif layout == "no-terminal-gap":
+        g = "A" + g + "C"
+    elif layout == "leading-gap-only":
+        g = "--" + g + "A"
     ok, ms = try_op(res, "imap", "parse_out_gaps", lambda: make_seq(g, moltype="dna").parse_out_gaps())
     if not ok:
         return
     m = ms[0]
-    item = lambda m: Item("IndelMap", m, indelmap_components())  # noqa: E731
-    yield item(m), "fresh", {"gapped": g}
+    item = lambda m: Item("IndelMap", m, indelmap_components(), state=lambda m: "termini-unknown" if m.termini_unknown else "termini-known")  # noqa: E731
+    yield item(m), "fresh", {"gapped": g, "layout": layout}
+    if getattr(rng, "slot", 1) % 2 == 0:
+        # the state IndelMap(termini_unknown=True) of Alignment.with_modified_termini(): terminal gaps are '?'
+        from cogent3.core.location import IndelMap
+
+        ok, m2 = try_op(
+            res, "imap", "ctor-termini_unknown",
+            lambda: IndelMap(gap_pos=m.gap_pos.copy(), cum_gap_lengths=m.cum_gap_lengths.copy(), parent_length=m.parent_length, termini_unknown=True),
+        )  # fmt: skip
+        if ok:
+            m = m2
+            yield item(m), "ctor-termini_unknown", {"op": "IndelMap(..., termini_unknown=True)"}
     for _ in range(depth):
         n = len(m)
-        op = rng.choice(["slice", "slice", "nucleic_reversed", "mul", "joined_segments", "add", "with_termini_unknown?", "deepcopy"])
+        op = rng.choice(["slice", "slice", "nucleic_reversed", "mul", "joined_segments", "add", "with_termini_unknown", "with_termini_unknown", "deepcopy"])
         d = {"op": op}
         if op == "slice":
             if n == 0:
@@ -2130,7 +2179,7 @@ def gen_indelmap(res, rng, depth):
             ok, new = try_op(res, "imap", op, lambda: m.joined_segments([(cuts[0], cuts[1]), (cuts[2], cuts[3])]))
         elif op == "add":
             ok, new = try_op(res, "imap", op, lambda: m + m)
-        elif op == "with_termini_unknown?":
+        elif op == "with_termini_unknown":
             ok, new = try_op(res, "imap", op, lambda: m.with_termini_unknown())
         else:
             ok, new = try_op(res, "imap", op, lambda: _copy.deepcopy(m))
